@@ -20,7 +20,15 @@ func (t TDist) CDF(x float64) float64 {
 	if x == 0 {
 		return 0.5
 	} else if x > 0 {
-		return 1 - 0.5*mathBetaInc(t.V/(t.V+x*x), t.V/2, 0.5)
+		x2 := x * x
+		if x2 < t.V {
+			// Near the center, V/(V+x²) rounds to a value next to 1
+			// and loses x entirely for small x. Use the
+			// complementary form I_{1-y}(b,a) = 1 - I_y(a,b), whose
+			// argument x²/(V+x²) is computed without cancellation.
+			return 0.5 + 0.5*mathBetaInc(x2/(t.V+x2), 0.5, t.V/2)
+		}
+		return 1 - 0.5*mathBetaInc(t.V/(t.V+x2), t.V/2, 0.5)
 	} else if x < 0 {
 		return 1 - t.CDF(-x)
 	} else {
